@@ -38,3 +38,24 @@ CHECKS['C03'] = _c('exploration',
     "Trace-automaton monitoring of the real transfer state machine: M1 a listener registered first on every Transfer checks every notified (old,new) against the pinned graph and for continuity; M2 observes every state operation INSIDE the transfer's own lock (instrumented asyncio.Lock subclass installed at Transfer creation): state dispatched on vs state at lock time, result, and a snapshot of file/reasons/timestamps/tasks before and after (refused operations must change nothing); M3 the public manager calls raise iff refused. Workloads: the exhaustive 187-cell state x operation x direction matrix, thousands of seeded 2-3-operation races while a slow operation holds the lock, and live two-client transfers with user calls landing at seeded instants.",
     "pinned/transfer_graph.json is the documented graph; in the race workload the slow transfer task is a harness coroutine that honours cancellation after k loop steps; the live workload uses the real tasks.",
     "trace automaton over listener notifications + invariant hook inside the object's own lock")
+
+CHECKS['C11'] = _c('fault_enumeration',
+    "Fault-enumeration monitoring of the real Network inside a logged-in client against a scripted peer and server: the connect mode x direct behaviour x indirect behaviour grid (60 cells) is enumerated in every run, ports / obfuscation preference / connection type / cancellation point / latencies (incl. both outcomes within one loop step) are seeded. Oracle on the boundary: outcome == (a path can work), the returned connection carries a message each way, and 120 virtual seconds later registry, simulated sockets, ticket waiters, cannot-connect waiters and connect tasks are compared with 'exactly the returned connection remains'. Connect-back duty: for every relayed ConnectToPeer exactly one of pierce-firewall (on the tap) / CannotConnect (at the server).",
+    "What 'can work' means is fixed by the scenario (connect completes < 10 s and init accepted; peer pierces < 60 s with the server up). Cancelled requests are judged for residue only.",
+    "fault enumeration over a scenario grid + residue comparison against simulated-network ground truth")
+CHECKS['C12'] = _c('exploration',
+    "Reference-model monitoring of pending requests: 1-4 concurrent requests (wait_for_*, create_*_response_future, execute(response=True) for six commands, request_place_in_queue) against seeded message sequences carrying unique ids from the server and two peers on an exact dyadic time grid (arrival == deadline == cancel instants occur in controlled orders, several frames per segment processed back-to-back); each request's outcome is compared with a fold over the observed MessageReceivedEvent order; residue and later delivery are checked at quiescence; 118 hand-written minimal histories run first.",
+    "Where arrival and deadline/cancel coincide both outcomes are accepted; connection loss while pending, D/F connections and obfuscated links are not covered.",
+    "history + executable model (per-request fold over the delivered message order)")
+CHECKS['C15'] = _c('exploration',
+    "Reference-model monitoring of user tracking: seeded track/untrack sequences (<= 8 calls, 2 users, 3 flags) with the gap between calls as schedule knob (k yields, delays around the worker's progress and the library's own 10/20/600 s timers), per-attempt scripted server answers (exists / not-exists / silence), up to two server disconnects + re-login; the frames recorded by the scripted server are judged per session against the fold of the calls (T-up AddUser, T-down RemoveUser, legitimate retries only after the documented delay while a reason remains), flags/state at quiescence, residue after a disconnect. Exhaustive in every run: track; {5 worker situations}; untrack; k=0..12 yields; track for all 9 flag pairs (585 cases) and a 144-case send-failure sweep.",
+    "Calls made while plainly disconnected are not judged; a call inside the CLOSED dispatch is accepted under both readings.",
+    "history + executable model over server-side frame logs, exhaustive gap sweep")
+CHECKS['C17'] = _c('exploration',
+    "Round-trip monitoring of the real TransferShelveCache and TransferManager.load_data: seeded lists of 0-8 transfers over every state x direction x field combination (legacy pickles, non-ASCII, concatenation-colliding identities) through histories of write / mutate / remove / add / write with restarts; after each load the set, fields, repaired state, flags, listener wiring, lock and scheduling eligibility are compared with the model. Crash points: two real clients transferring on the simulated net, write_cache at a state edge, brutal process end (tasks cancelled, sockets aborted) or stop(), restart on the same caches, resumed download checked with the C04 oracle.",
+    "An UPLOADING record with bytes missing loading as INCOMPLETE is accepted (statement: 'INCOMPLETE otherwise'); bounded progress after a restart is not demanded.",
+    "round-trip comparison with a reference model + crash-point injection")
+CHECKS['C18'] = _c('exploration',
+    "Trace checking against a reference fold: seeded step scripts (search / room / user search, wishlist rounds, manual removal, peer replies with live / stale / unknown / duplicate tickets, operations on the public request.timer) with steps placed exactly at timer deadlines in both orders; one ordered log of bus events, harness actions and registry snapshots is folded into the set of live requests and judged (result iff live and same ticket, distinct live tickets, removal exactly once at t+timeout, nothing after a manual removal, cancelled / re-armed timers never fire for a superseded deadline). Cases 0-242 enumerate every single follow-up x search type x 8 positions around the deadline.",
+    "A KeyError raised synchronously by remove_request for a request that is no longer registered is not judged.",
+    "offline trace checker (fold) over an ordered event log with same-instant races")
